@@ -193,7 +193,7 @@ Proof.
   rewrite H. apply fold_left_ext_in. intros acc alias _.
   destruct acc as [pk|e]; [|reflexivity].
   destruct (assoc_get alias pk); [reflexivity|].
-  destruct (find_pkg fs alias); [|reflexivity].
+  destruct (find_pkg fs (import_path p alias)); [|reflexivity].
   apply IH. exact H.
 Qed.
 
@@ -449,9 +449,9 @@ Definition cls_fixed (m : msite) : site_class :=
   end.
 
 (* witness program: main imports two packages that define one variable each *)
-Definition w_p2 : pkg := mkPkg 2 [] [(7%N, 8)] [] [mkV 1 0] [] [].
-Definition w_p3 : pkg := mkPkg 3 [] [(5%N, 4)] [9%N] [mkV 1 1] [] [].
-Definition w_main : pkg := mkPkg 1 [2; 3]%N [] [] [] [[49]%N; [51]%N] [(2, 1); (3, 1); (2, 1)]%N.
+Definition w_p2 : pkg := mkPkg 2 2 [] [] [(7%N, 8)] [] [mkV 1 0] [] [].
+Definition w_p3 : pkg := mkPkg 3 3 [] [] [(5%N, 4)] [9%N] [mkV 1 1] [] [].
+Definition w_main : pkg := mkPkg 1 1 [2; 3]%N [] [] [] [] [[49]%N; [51]%N] [(2, 1); (3, 1); (2, 1)]%N.
 Definition w_prog : prog := (w_main, [w_p2; w_p3]).
 
 Example fixed_model_same_listing : compile cls_fixed o_id w_prog = compile cls_fixed o_rev w_prog.
@@ -548,7 +548,7 @@ Qed.
 (* the function instance counters alone (a program without package variables):
    labels f#0 g#0 f#1 at the first compilation, f#2 g#1 f#3 at the second *)
 Definition w_calls : prog :=
-  (mkPkg 1 [2]%N [] [] [] [] [(2, 1); (2, 2); (2, 1)]%N, [mkPkg 2 [] [] [] [] [] []]).
+  (mkPkg 1 1 [2]%N [] [] [] [] [] [(2, 1); (2, 2); (2, 1)]%N, [mkPkg 2 2 [] [] [] [] [] [] []]).
 
 Example func_instances_first :
   compile cls_fixed o_id w_calls = [IMain 0 0; ICall 2 1 0; ICall 2 2 0; ICall 2 1 1; IPad 7]%N.
@@ -557,6 +557,35 @@ Proof. vm_compute. reflexivity. Qed.
 Example func_instances_regression :
   compile_again_noreset cls_fixed o_id o_id w_calls = [IMain 0 0; ICall 2 1 2; ICall 2 2 1; ICall 2 1 3; IPad 7]%N.
 Proof. vm_compute. reflexivity. Qed.
+
+(* ---- alias clashes: the package table is keyed by alias ---- *)
+
+(* main (path 1) imports lib/codec (alias 2, path 20) and proto (alias 3, path 3);
+   proto imports legacy/codec (alias 2, path 21).  The two codec packages differ
+   in the size of their init block (1 resp. 2 instructions). *)
+Definition c_lib : pkg := mkPkg 2 20 [] [] [] [] [mkV 1 0] [] [].
+Definition c_legacy : pkg := mkPkg 2 21 [] [] [] [] [mkV 2 0] [] [].
+Definition c_proto : pkg := mkPkg 3 3 [2]%N [(2, 21)]%N [] [] [mkV 1 0] [] [].
+Definition c_main : pkg := mkPkg 1 1 [2; 3]%N [(2, 20); (3, 3)]%N [] [] [] [] [].
+Definition c_prog : prog := (c_main, [c_lib; c_legacy; c_proto]).
+
+(* current source (imports parsed in sorted alias order): lib/codec is parsed
+   first and owns the alias; legacy/codec is never parsed - for every oracle *)
+Example alias_clash_sorted_winner : forall o, oracle_ok o ->
+  compile cls_fixed o c_prog = compile cls_fixed o_id c_prog.
+Proof. intros o Ho. unfold compile. apply f_equal. apply compile_in_deterministic_cls; try reflexivity; [exact Ho | exact o_id_ok]. Qed.
+
+Example alias_clash_sorted_listing :
+  compile cls_fixed o_id c_prog = [IBlock 2 1 0; IBlock 3 1 0; IMain 0 0; IPad 7]%N.
+Proof. vm_compute. reflexivity. Qed.
+
+(* regression record (seeded defect: Compiler.parse ranging over the Imports map
+   again): with raw-order parsing the other path can win the alias and the
+   program is compiled against a different package *)
+Example alias_clash_parse_order_refuted :
+  compile (cls_b false true) o_rev c_prog = [IBlock 2 2 0; IBlock 3 1 0; IMain 0 0; IPad 7]%N
+  /\ compile (cls_b false true) o_id c_prog <> compile (cls_b false true) o_rev c_prog.
+Proof. split; [vm_compute; reflexivity | vm_compute; intros Heq; discriminate Heq]. Qed.
 
 (* sort.SliceStable of the GMW target: equal keys keep their order *)
 Example gmw_order_stable :
@@ -672,21 +701,21 @@ Proof. intros. unfold assoc_get. simpl. rewrite N.eqb_refl. reflexivity. Qed.
    the Package.Init site for the packages of a program, with one of the
    enumerated table oracles. *)
 Theorem enumerated_oracles_complete : forall (o : oracle) (ps : list pkg),
-    oracle_ok o -> NoDup (map p_name ps) ->
+    oracle_ok o -> NoDup (map p_path ps) ->
     exists t, In t (all_tables ps) /\
       forall p, In p ps ->
-        oracle_of_table t N MS_init (p_name p) (p_imports p) = o N MS_init (p_name p) (p_imports p).
+        oracle_of_table t N MS_init (p_path p) (p_imports p) = o N MS_init (p_path p) (p_imports p).
 Proof.
   intros o ps Hok. induction ps as [|q ps IH]; intros Hnd.
   - exists []. split; [left; reflexivity | intros p []].
   - simpl in Hnd. inversion Hnd as [|? ? Hnotin Hnd']; subst.
     destruct (IH Hnd') as [t [It Ht]].
-    destruct (perm_index _ (p_imports q) (o N MS_init (p_name q) (p_imports q)) (Hok _ _ _ _)) as [i [Hi Hn]].
-    exists ((p_name q, i) :: t). split.
+    destruct (perm_index _ (p_imports q) (o N MS_init (p_path q) (p_imports q)) (Hok _ _ _ _)) as [i [Hi Hn]].
+    exists ((p_path q, i) :: t). split.
     + simpl. apply in_flat_map. exists i. split; [apply in_seq; lia | apply in_map; exact It].
     + intros p [<-|Hp].
       * unfold oracle_of_table. rewrite assoc_get_cons_same. exact Hn.
-      * assert (Hne : p_name p <> p_name q).
+      * assert (Hne : p_path p <> p_path q).
         { intros E. apply Hnotin. rewrite <- E. apply in_map. exact Hp. }
         specialize (Ht p Hp). unfold oracle_of_table in *.
         rewrite assoc_get_cons_other by exact Hne. exact Ht.
@@ -695,7 +724,7 @@ Qed.
 (* pkg_init only consults the key-order function on (name, imports) of the
    packages it visits *)
 Lemma pkg_init_ext_on : forall fuel rk1 rk2 pkgs st p,
-    (forall q, q = p \/ In q (map snd pkgs) -> rk1 MS_init (p_name q) (p_imports q) = rk2 MS_init (p_name q) (p_imports q)) ->
+    (forall q, q = p \/ In q (map snd pkgs) -> rk1 MS_init (p_path q) (p_imports q) = rk2 MS_init (p_path q) (p_imports q)) ->
     pkg_init fuel rk1 pkgs st p = pkg_init fuel rk2 pkgs st p.
 Proof.
   induction fuel as [|f IH]; intros rk1 rk2 pkgs st p H; simpl; [reflexivity|].
@@ -715,7 +744,7 @@ Qed.
    the sequence of init blocks the correspondence check compares) under any
    permutation oracle is the one under some enumerated table *)
 Theorem pkg_init_enumerated : forall (cls : msite -> site_class) (o : oracle) (ps : list pkg),
-    oracle_ok o -> NoDup (map p_name ps) ->
+    oracle_ok o -> NoDup (map p_path ps) ->
     exists t, In t (all_tables ps) /\
       forall fuel pkgs st p, In p ps -> (forall q, In q (map snd pkgs) -> In q ps) ->
         pkg_init fuel (range_keys cls o) pkgs st p = pkg_init fuel (range_keys cls (oracle_of_table t)) pkgs st p.
